@@ -167,6 +167,7 @@ def check(ctx):
     bound_direction(ctx, repo)
     cap_dominates(ctx, s, dates)
     capped_alias(ctx, repo)
+    ceiling_agreement(ctx, repo)
     ctx.extra_cov["denominators_discharged_by"] = discharged_by
     ctx.extra_cov["dates"] = len(dates)
     ctx.sample({"discharged_by": discharged_by})
@@ -579,3 +580,35 @@ def capped_alias(ctx, repo):
             for b in uses:
                 ctx.violation("S-alias", f"{r.qual}|{raw}|{ast.unparse(b)[:60]}", f"src/_gettsim/{r.mod.rel}:{b.lineno} {r.name}", f"`{ast.unparse(b)[:80]}` computes with the uncapped `{raw}` although the function caps it as `{alias} = {ast.unparse(st.value)[:60]}`: this term keeps growing beyond the cap the sibling terms respect")
     ctx.floor("S-alias", 5)
+
+
+def ceiling_agreement(ctx, repo):
+    """S-ceil: within one contribution module every rule that needs an assessment ceiling uses the same ceiling node
+    (health and care use the health ceiling, pension and unemployment the pension ceiling); a rule using the
+    sibling branch's ceiling lets the contribution exceed rate x ceiling of its own branch."""
+    import collections
+    import re as _re
+
+    ctx.rule("S-ceil", "all rules of one social-insurance module use the same assessment-ceiling node")
+    pat = _re.compile(r"^_ges_\w+_beitr_bemess_grenze_[mywd]$")
+    by_mod = collections.defaultdict(lambda: collections.defaultdict(list))
+    for r in repo.rules:
+        if not r.mod.rel.startswith("social_insurance_contributions/") or r.mod.rel.endswith("beitr_bemess_grenzen.py"):
+            continue
+        for a in r.argnames:
+            if pat.match(a):
+                by_mod[r.mod.rel][a].append(r)
+    n = 0
+    for mod, uses in sorted(by_mod.items()):
+        n += sum(len(v) for v in uses.values())
+        if len(uses) <= 1:
+            ctx.ob("S-ceil", ok=True, distinct=mod, n=sum(len(v) for v in uses.values()))
+            continue
+        major = max(uses, key=lambda k: len(uses[k]))
+        for a, rs in uses.items():
+            if a == major:
+                continue
+            for r in rs:
+                ctx.ob("S-ceil", ok=False, distinct=(mod, r.qual))
+                ctx.violation("S-ceil", f"{r.qual}|{a}", r.where, f"{r.name} caps its base with `{a}` while the other {len(uses[major])} rule(s) of {mod} use `{major}`: this branch's contribution can exceed its rate times its own assessment ceiling")
+    ctx.floor("S-ceil", 4)
